@@ -157,7 +157,7 @@ def _perm_cases(tier, cfg, full):
 
 
 TENTRY = {"transpose": 0, "trans.ctor": 1, "trans.assign": 2, "ctrans.ctor": 3, "ctrans.assign": 4, "transpose.expr": 5, "trans.expr": 6,
-          "ctranspose": 7}
+          "ctranspose": 7, "trans.add": 9, "trans.sub": 10, "trans.mul": 11, "trans.div": 12}
 
 
 def _tr_case(t, M, N, entry, cfg, name=None, **kw):
@@ -203,6 +203,8 @@ def _trans_cases(tier, cfg, full):
                     out.append(_tr_case(t, M, N, "trans.assign", cfg))
                     out.append(_tr_case(t, M, N, "transpose.expr", cfg))
                     out.append(_tr_case(t, M, N, "trans.expr", cfg))
+                    for e in ("trans.add", "trans.sub", "trans.mul") + (("trans.div",) if t != "c64" else ()):
+                        out.append(_tr_case(t, M, N, e, cfg))      # trans() consumed by +=, -=, *=, /=
                     if t == "c64":
                         out.append(_tr_case(t, M, N, "ctrans.assign", cfg))
                         out.append(_tr_case(t, M, N, "ctranspose", cfg))
